@@ -6,15 +6,21 @@ import warnings
 MOD = 1000003
 
 
-def rand_ctl_case(rng):
-    n_leaf = rng.randint(1, 4)
+def rand_ctl_case(rng, failing=False):
+    """failing=True: some derived definitions raise ValueError for some argument values (their
+    update() fails in the middle of the walk over the dirty definitions)"""
+    n_leaf = rng.randint(1 + failing, 4)
     n_der = rng.randint(1, 7)
     nodes = [dict(k="leaf", name=f"p{i}", v=rng.randint(0, 6)) for i in range(n_leaf)]
     for i in range(n_der):
         k = len(nodes)
         na = rng.randint(1, min(3, k))
         args = sorted(set(rng.randrange(max(0, k - 4), k) if rng.random() < 0.7 else rng.randrange(k) for _ in range(na)))
-        nodes.append(dict(k="derived", name=f"d{i}", args=args, salt=rng.randint(0, 40), mult=rng.choice([1, 2, 3, 7])))
+        nd = dict(k="derived", name=f"d{i}", args=args, salt=rng.randint(0, 40), mult=rng.choice([1, 2, 3, 7]))
+        if failing and rng.random() < 0.45:
+            nd["rmod"] = rng.choice([3, 4, 5])
+            nd["rres"] = rng.randrange(nd["rmod"])
+        nodes.append(nd)
     # every definition must be used: the top definition takes all otherwise unused ones as arguments
     used = set(a for nd in nodes if nd["k"] == "derived" for a in nd["args"])
     top = nodes[-1]
@@ -44,10 +50,14 @@ def rand_ctl_case(rng):
 
 def _calc(node):
     salt, mult = node["salt"], node["mult"]
+    rmod, rres = node.get("rmod", 0), node.get("rres", 0)
 
     def f(*xs):
         t = sum((i + 3) * int(x) for i, x in enumerate(xs))
-        return float((t * mult + salt) % MOD)
+        v = (t * mult + salt) % MOD
+        if rmod and v % rmod == rres:
+            raise ValueError("toy definition cannot be updated")
+        return float(v)
 
     return f
 
@@ -92,7 +102,8 @@ def run_real_ctl(case, xexit_as="xexit"):
         if nd["k"] == "leaf":
             defns.append(dict(k="leaf"))
         else:
-            defns.append(dict(k="derived", args=[idx[nodes[a]["name"]] for a in nd["args"]], salt=nd["salt"], mult=nd["mult"]))
+            defns.append(dict(k="derived", args=[idx[nodes[a]["name"]] for a in nd["args"]], salt=nd["salt"], mult=nd["mult"],
+                              rmod=nd.get("rmod", 0), rres=nd.get("rres", 0)))
     settings = [by_name[name].get("v", 0) for name in order]
     id2idx = {id(d): i for i, d in enumerate(pc.defns)}
 
@@ -109,29 +120,38 @@ def run_real_ctl(case, xexit_as="xexit"):
     steps = []
     lean_ops = []
     for op in case["ops"]:
+        raised = False
         if op[0] == "assign":
             name = nodes[op[1]]["name"]
             if name not in idx:  # leaf not reachable from the top definition
                 continue
-            pc.assign_all(name, value=float(op[2]))
             lean_ops.append(["assign", idx[name], op[2]])
+            try:
+                pc.assign_all(name, value=float(op[2]))
+            except ValueError:
+                raised = True
         elif op[0] == "enter":
             cm = pc.updates_postponed()
             cm.__enter__()
             frames.append(cm)
             lean_ops.append(["enter"])
         elif op[0] == "exit":
-            frames.pop().__exit__(None, None, None)
             lean_ops.append(["exit"])
+            try:
+                frames.pop().__exit__(None, None, None)
+            except ValueError:
+                raised = True
         else:
             cm = frames.pop()
+            lean_ops.append([xexit_as])
             try:
                 exc = KeyError("raised inside the block")
                 cm.__exit__(KeyError, exc, None)
             except KeyError:
                 pass
-            lean_ops.append([xexit_as])
-        steps.append(snap())
+            except ValueError:
+                raised = True
+        steps.append(dict(snap(), raised=raised))
     return dict(defns=defns, settings=settings, ops=lean_ops), init, steps
 
 
@@ -143,5 +163,8 @@ def fresh_values(req, settings):
             vals.append(settings[i])
         else:
             t = sum((j + 3) * vals[a] for j, a in enumerate(d["args"]))
-            vals.append((t * d["mult"] + d["salt"]) % MOD)
+            v = (t * d["mult"] + d["salt"]) % MOD
+            if d.get("rmod") and v % d["rmod"] == d["rres"]:
+                return None
+            vals.append(v)
     return vals
